@@ -38,8 +38,8 @@ import (
 	"time"
 
 	"connectrpc.com/conformance/internal"
-	"connectrpc.com/conformance/internal/compression"
 	rs "connectrpc.com/conformance/internal/app/referenceserver"
+	"connectrpc.com/conformance/internal/compression"
 	conformancev1 "connectrpc.com/conformance/internal/gen/proto/go/connectrpc/conformance/v1"
 	"connectrpc.com/conformance/internal/verifharness/gen"
 	"github.com/quic-go/quic-go"
@@ -65,8 +65,15 @@ type c12RealIn struct {
 	Name     string  `json:"name"`
 	Times    int     `json:"times"`
 	Trailers int     `json:"trailers"`
-	Timeout  *string `json:"timeout"` // hex; sent in the timeout header of the actual protocol
+	Timeout  *string `json:"timeout"`       // hex; sent in the timeout header of the actual protocol
 	Pad      *c12Pad `json:"pad,omitempty"` // a value the feedback echoes made longer (c12ApplyPad: expect | timeout)
+	// Traced: the server is given a tracer (runner started with --trace): createServer installs
+	// tracer.TracingHandler around the checks
+	Traced bool `json:"traced,omitempty"`
+	// GetBody (GET requests only): 0 no body; 1 a body of one byte (Content-Length: 1); 2 a body
+	// of unknown length that turns out to be empty (HTTP/1.1: Transfer-Encoding: chunked with only
+	// the last chunk; HTTP/2, 3: HEADERS without END_STREAM, then an empty DATA frame)
+	GetBody int `json:"getBody,omitempty"`
 }
 
 type c12RealObs struct {
@@ -86,9 +93,9 @@ type c12RealObs struct {
 // ---------------------------------------------------------------- certificates (once per process)
 
 var c12Certs struct {
-	once                                       sync.Once
+	once                                         sync.Once
 	serverCert, serverKey, clientCert, clientKey []byte
-	err                                        error
+	err                                          error
 }
 
 func c12GetCerts() error {
@@ -302,6 +309,12 @@ func c12RealExchange(ctx context.Context, tr http.RoundTripper, addr string, in 
 	var pw *io.PipeWriter
 	switch {
 	case r.Method == http.MethodGet:
+		switch in.GetBody {
+		case 1:
+			reqBody = bytes.NewReader([]byte("x"))
+		case 2:
+			reqBody = c12PlainReader{strings.NewReader("")}
+		}
 	case duplex:
 		var pr *io.PipeReader
 		pr, pw = io.Pipe()
@@ -314,6 +327,12 @@ func c12RealExchange(ctx context.Context, tr http.RoundTripper, addr string, in 
 	req, err := http.NewRequestWithContext(ctx, r.Method, target, reqBody)
 	if err != nil {
 		return fail(err)
+	}
+	if r.Method == http.MethodGet && in.GetBody == 2 {
+		req.ContentLength = -1
+		if in.A[0] == 0 {
+			req.TransferEncoding = []string{"chunked"} // no probing of the body by the transport: send it chunked
+		}
 	}
 	for _, kv := range r.Headers {
 		req.Header[kv[0]] = append(req.Header[kv[0]], kv[1])
@@ -497,9 +516,14 @@ func c12Real(c *gen.Ctx, in c12RealIn) []c12RealObs {
 	if in.A[6] == 1 {
 		clientCA = c12Certs.clientCert
 	}
-	srv, err := rs.VerifC12StartReal(int32(in.Srv), in.A[5] == 1, c12Certs.serverCert, c12Certs.serverKey, clientCA)
+	srv, err := rs.VerifC12StartRealTraced(int32(in.Srv), in.A[5] == 1, c12Certs.serverCert, c12Certs.serverKey, clientCA, in.Traced)
 	if err != nil {
 		return failAll(err)
+	}
+	if in.Traced {
+		c.E.Count("real:server-with-tracer")
+	} else {
+		c.E.Count("real:server-without-tracer")
 	}
 	stopped := false
 	defer func() {
@@ -607,8 +631,10 @@ func c12RealGen(c *gen.Ctx) {
 	mk := func(t c12RealTransport, p c12RealProc, protocol, codec, comp int) c12RealIn {
 		a := [7]int{t.version, c12B(p.get), protocol, codec, comp, t.tls, t.cert}
 		n++
+		// the server without / with a tracer, alternating (the matching requests of (a) and the GET
+		// requests of (g) go to both)
 		return c12RealIn{Srv: t.srv, E: a, A: a, V: [3]int{c12B(c12Streaming(p.proc)), n % 2, (n / 2) % 2},
-			Proc: p.proc, Full: p.full, Name: "Real/" + p.proc, Times: 1}
+			Proc: p.proc, Full: p.full, Name: "Real/" + p.proc, Times: 1, Traced: (n/2)%2 == 1}
 	}
 	each := func(f func(t c12RealTransport, p c12RealProc, protocol int)) {
 		for _, t := range c12RealTransports {
@@ -642,6 +668,12 @@ func c12RealGen(c *gen.Ctx) {
 			in := mk(t, p, protocol, cc[0], cc[1])
 			ins = append(ins, in)
 			c.E.Count("kind:real-match")
+			if ci%4 == 0 || p.get { // the same request against the other configuration of the server
+				other := in
+				other.Traced = !in.Traced
+				ins = append(ins, other)
+				c.E.Count("kind:real-match-other-configuration")
+			}
 			if ci%4 != 0 {
 				continue
 			}
@@ -766,6 +798,30 @@ func c12RealGen(c *gen.Ctx) {
 		}
 		ins = append(ins, in)
 		c.E.Count("kind:real-odd-name")
+	}
+	// (g) GET requests and their bodies, against the server with and without a tracer: no body,
+	// a body of unknown length that is empty (still a conformant request: nothing may be reported),
+	// a body of one byte; matching in every aspect and with one deviating aspect
+	for ti, t := range c12RealTransports {
+		if !thorough && (ti+n)%2 == 0 && ti > 2 {
+			continue
+		}
+		for traced := 0; traced < 2; traced++ {
+			for body := 0; body < 3; body++ {
+				for dev := 0; dev < 2; dev++ {
+					in := mk(t, c12RealProc{"IdempotentUnary", true, false}, 0, r.Intn(2), r.Intn(6))
+					in.Traced = traced == 1
+					in.GetBody = body
+					in.Name = "Real/get-body-" + strconv.Itoa(body)
+					if dev == 1 {
+						d := gen.Pick(r, []int{0, 1, 2, 3, 4})
+						in.E[d] = (in.A[d] + 1) % c12Dims[d]
+					}
+					ins = append(ins, in)
+					c.E.Count("kind:real-get-body")
+				}
+			}
+		}
 	}
 	// (f) feedback as long as the client makes it: a value the checks echo (an expectation header,
 	// a timeout header) of 4 KiB .. 200 KiB, on a request sent twice - the long line, the lines
